@@ -52,7 +52,10 @@ class ImageSurface(Surface):
         material_pre = BaseMaterial.from_dict(data['material_pre'])
         aperture = BaseAperture.from_dict(data['aperture']) \
             if data['aperture'] else None
-        return cls(geometry, material_pre, aperture)
+        surface = cls(geometry, material_pre, aperture)
+        # the constructor sets material_post = material_pre; keep what was saved
+        surface.material_post = BaseMaterial.from_dict(data['material_post'])
+        return surface
 
     def _interact(self, rays):
         """
